@@ -81,6 +81,37 @@ class RecFuns:
             c.assume(fn(p) == r[key])
 
 
+class TxnFuns:
+    """ghost functions of the transaction header fields of an image (ground-linked, see RecFuns);
+    trl(b) is the redundant length stored after the records: be(A, b + tl(b), 8)"""
+
+    def __init__(self, c, arr, tag='T'):
+        self.arr = arr
+        n = fresh_name(tag)
+        mk = lambda nm: z3.Function('%s_%s' % (nm, n), I, I)
+        self.tid, self.tl, self.status = mk('ttid'), mk('tl'), mk('status')
+        self.ul, self.dl, self.el, self.trl = mk('ul'), mk('dl'), mk('el'), mk('trl')
+        c.ghost.setdefault('txnfuns', {})[arr.get_id()] = self
+        self.linked = set()
+
+    def hdrlen(self, b):
+        return 23 + self.ul(b) + self.dl(b) + self.el(b)
+
+    def link(self, c, b):
+        b = z3.simplify(b)
+        k = b.get_id()
+        if k in self.linked:
+            return
+        self.linked.add(k)
+        t = txn(self.arr, b)
+        byte_range_facts(c, self.arr, b, 23)
+        for fn, key in ((self.tid, 'tid'), (self.tl, 'tl'), (self.status, 'status'),
+                        (self.ul, 'ul'), (self.dl, 'dl'), (self.el, 'el')):
+            c.assume(fn(b) == t[key])
+        byte_range_facts(c, self.arr, z3.simplify(b + t['tl']), 8)
+        c.assume(self.trl(b) == be(self.arr, b + t['tl'], 8))
+
+
 def link_at(c, arr, p):
     F = c.ghost.get('recfuns', {}).get(arr.get_id())
     if F is not None:
@@ -287,6 +318,12 @@ def mk_fs(c, in_txn=None, read_only=None, with_ghost=True, quota='sym', cls=FS):
         fields['_transaction'] = NONE
     else:
         fields['_transaction'] = h.txn   # symbolic: "may be none" is expressed by cases
+    from . import blobmodel
+    h.blobfs = blobmodel.new_blobfs(c)
+    h.dirty = blobmodel.new_dirty(c)
+    h.fshelper = blobmodel.new_fshelper(c, h.blobfs)
+    fields['dirty_oids'] = h.dirty
+    fields['fshelper'] = h.fshelper
     h.self = c.new_obj('inst', cls, fields, {'name': 'FileStorage'})
     fa = c.obj(h.file).f
     c.assume(z3.And(h.pos.t >= 4, h.pos.t <= fa['size'], fa['size'] < MAXPOS))
